@@ -6,7 +6,8 @@ base = json.load(open("/root/.vp/BASELINE.json"))
 with tempfile.TemporaryDirectory() as td:
     jx = os.path.join(td, "j.xml")
     subprocess.run(["/venv/bin/python", "-m", "pytest", "-q", "--tb=no", "-p", "no:cacheprovider", "--timeout=900",
-                    "--continue-on-collection-errors", "--junitxml=" + jx], cwd=repo, capture_output=True, text=True)
+                    "--continue-on-collection-errors", "--junitxml=" + jx], cwd=repo, capture_output=True, text=True,
+                   env=dict(os.environ, PYTHONPATH=os.path.join(repo, "src")))
     root = ET.parse(jx).getroot()
 passed = set()
 for tc in root.iter("testcase"):
